@@ -485,10 +485,18 @@ class PrintNode(visitor.Visitor):
         return ".."
 
     def visit_BinaryOp(self, node):
-        return self.visit(node.left) + node.op + self.visit(node.right)
+        right = self.visit(node.right)
+        if right[:1] in "+-":
+            # 2 - -3, avoid creating the token -- (and two consecutive
+            # operators which Fortran does not allow).
+            right = "(" + right + ")"
+        return self.visit(node.left) + node.op + right
 
     def visit_UnaryOp(self, node):
-        return node.op + self.visit(node.node)
+        operand = self.visit(node.node)
+        if operand[:1] in "+-":
+            operand = "(" + operand + ")"
+        return node.op + operand
 
     def visit_ParenExpr(self, node):
         return "(" + self.visit(node.node) + ")"
